@@ -60,6 +60,7 @@ type SolverStats struct {
 	Unsat    int64
 	Unknown  int64
 	Errors   int64
+	Retries  int64
 	NanosSMT int64
 }
 
@@ -251,6 +252,22 @@ func (s *Solver) Check(extra *Term) Res {
 		lines = s.roundtrip("(check-sat)")
 	}
 	r := parseRes(lines)
+	if r == Unknown && s.kind != "cvc5" {
+		// a loaded machine can push a normally instant query over the time limit: retry once with
+		// four times the limit before giving up
+		s.send(fmt.Sprintf("(set-option :timeout %d)", 4*s.timeout))
+		if extra != nil && !extra.IsTrue() {
+			s.send("(push 1)")
+			s.send("(assert " + smt(extra) + ")")
+			lines = s.roundtrip("(check-sat)")
+			s.send("(pop 1)")
+		} else {
+			lines = s.roundtrip("(check-sat)")
+		}
+		s.send(fmt.Sprintf("(set-option :timeout %d)", s.timeout))
+		r = parseRes(lines)
+		atomic.AddInt64(&gStats.Retries, 1)
+	}
 	atomic.AddInt64(&gStats.Queries, 1)
 	atomic.AddInt64(&gStats.NanosSMT, int64(time.Since(t0)))
 	switch r {
